@@ -495,7 +495,7 @@ func judgeCall(m mgen.Model, root string, lookup bool, out string) string {
 
 func checkCall(c CallCase) pbt.Verdict {
 	reset()
-	model := c.Model.ToCoca()
+	model := toCoca(c.Model)
 	var out string
 	if p := pbt.Call(func() { out = call.NewCallGraph().Analysis(c.Root, model, c.Lookup) }); p != "" {
 		return pbt.Fail("Analysis panicked: %s", p)
@@ -764,7 +764,7 @@ func apiClasses(m mgen.Model, di map[string]string, apis []Api) (classes []strin
 
 func checkApi(c ApiCase) pbt.Verdict {
 	reset()
-	model := c.Model.ToCoca()
+	model := toCoca(c.Model)
 	di := c.DI
 	if c.NilDI && len(di) == 0 {
 		di = nil
@@ -793,7 +793,7 @@ func checkSeq(c SeqCase) pbt.Verdict {
 	reset()
 	var data [][]core_domain.CodeDataStruct
 	for _, m := range c.Models {
-		data = append(data, m.ToCoca())
+		data = append(data, toCoca(m))
 	}
 	di := map[string]string{}
 	for k, v := range c.DI {
@@ -868,7 +868,7 @@ func stripScratch(s, dir string) string { return strings.ReplaceAll(s, dir, "<sc
 func checkCli(c CliCase) pbt.Verdict {
 	dir := cli.Scratch("c03-")
 	defer os.RemoveAll(dir)
-	data := c.Model.ToCoca()
+	data := toCoca(c.Model)
 	if data == nil {
 		data = []core_domain.CodeDataStruct{}
 	}
@@ -985,7 +985,7 @@ func init() {
 	pbt.Register("call", 6000, 60000, genCall, checkCall)
 	pbt.Register("api", 4000, 40000, genApi, checkApi)
 	pbt.Register("seq", 3000, 30000, genSeq, checkSeq)
-	pbt.Register("cli", 60, 400, genCli, checkCli)
+	pbt.Register("cli", 100, 400, genCli, checkCli)
 }
 
 func TestProp(t *testing.T)   { pbt.Main(t) }
